@@ -80,7 +80,7 @@ Proof. vm_compute. split; reflexivity. Qed.
 From AV.Model Require Import Interp.
 From AV.Spec Require Import WorldSpec.
 From AV.Proofs Require Import WorldProofs.
-(** WHOLE HISTORIES: drain AND splice are part of the history fragment of AV.Props.C01 - for EVERY range in every RangeBounds form (invalid ranges panic with the right kind before the vector changes: [C02_into_range_panics]), EVERY sequence of next / next_back / nth / nth_back calls of any length (also after exhaustion; items passed over by nth, skip or step_by are destroyed like dropped ones and never reported: [KSkip]) whose items are dropped or downcast, erased and typed variant, iterator dropped or leaked: the list specifications [WorldSpec.sp_drain] / [WorldSpec.sp_splice] (yielded values front-ascending / back-descending, exact size hints, Vec::drain's / Vec::splice's result, the un-yielded values destroyed in order, then the replacement values pulled and moved in) are what the byte-level machine does, inside any history of any number of vectors ([C01_history_refines] covers ODrain and OSplice; [C02_walk] is the per-pattern induction).  Splice fragment ([C02_splice_in_histories]): ANY number of replacement values of the vector's element type, handed over by value or boxed, honest size hint; a result that does not fit a fixed capacity (or whose length is not representable) panics, destroys every replacement value once and leaves the prefix; a leaked Splice leaks the replacement values; an invalid range destroys them.  Still PARTIAL (one-step theorems above + correspondence): replacement iterators that lie about their length, yield lazily cloned or wrong-typed items, and item sinks that move yielded values into other vectors. *)
+(** WHOLE HISTORIES: drain AND splice are part of the history fragment of AV.Props.C01 - for EVERY range in every RangeBounds form (invalid ranges panic with the right kind before the vector changes: [C02_into_range_panics]), EVERY sequence of next / next_back / nth / nth_back calls of any length (also after exhaustion; items passed over by nth, skip or step_by are destroyed like dropped ones and never reported: [KSkip]) whose items are dropped or downcast, erased and typed variant, iterator dropped or leaked: the list specifications [WorldSpec.sp_drain] / [WorldSpec.sp_splice] (yielded values front-ascending / back-descending, exact size hints, Vec::drain's / Vec::splice's result, the un-yielded values destroyed in order, then the replacement values pulled and moved in) are what the byte-level machine does, inside any history of any number of vectors ([C01_history_refines] covers ODrain and OSplice; [C02_walk] is the per-pattern induction).  Splice fragment ([C02_splice_in_histories]): ANY number of replacement values of the vector's element type, handed over by value or boxed, honest size hint; a result that does not fit a fixed capacity (or whose length is not representable) panics, destroys every replacement value once and leaves the prefix; a leaked Splice leaks the replacement values; an invalid range destroys them.  Still PARTIAL (one-step theorems above + correspondence): replacement iterators that lie about their length, yield lazily cloned or wrong-typed items, and item sinks that move yielded values into other vectors.  Drains whose items are pushed / inserted into other vectors or forgotten ([WorldSpec.sp_drain_mv]) are steps of the fragment too: [C02_moving_walk], [C02_moving_drain_in_histories]. *)
 Theorem C02_into_range_panics :
   forall (len : N) (sb eb : bound) (s : st),
          range_of_bounds usize_max len (to_sb sb) (to_sb eb) = None ->
@@ -127,6 +127,46 @@ Theorem C02_splice_in_histories :
          res_matches c w (exec c (OSplice a vid sb eb pat f rk n wrong_at claimed) w) r.
 Proof. exact exec_splice. Qed.
 
+(** the iterator's calls when yielded items are also MOVED into other vectors or forgotten: by induction over any call list, the machine's walk is the specification's [sp_walk_mv] - the other vectors change while the iterator is alive; a refused move stops the walk and the unwinding drops the iterator at that cursor *)
+Theorem C02_moving_walk :
+  forall (c : cfg) (w : world) (vid : nat) (av : avec) (vv : vec) (s e : nat) (a : api),
+         cfg_wf c ->
+         VI c vv av ->
+         (s <= e)%nat ->
+         (e <= length (a_xs av))%nat ->
+         forall (cleanup : cursor -> M world unit) (pat : list (bool * sink)) (i j : nat) 
+           (ww : world) (stw : astate) (evs : list event),
+         WalkM c w vid av vv s ww stw evs ->
+         (s <= i)%nat ->
+         (i <= j)%nat ->
+         (j <= e)%nat ->
+         adm_pat c ww vid pat ->
+         match sp_walk_mv c vid (a_xs av) pat i j stw with
+         | Some (WDone rets evs1 i' j' st' _) =>
+             exists ww' : world,
+               walk c vid a cleanup pat {| ci := N.of_nat i; ce := N.of_nat j |} ww =
+               Ok (rets, {| ci := N.of_nat i'; ce := N.of_nat j' |}) ww' /\
+               WalkM c w vid av vv s ww' st' (evs ++ evs1) /\ (i <= i')%nat /\ (i' <= j' <= j)%nat
+         | Some (WStop p evs1 i' j' st' _) =>
+             exists ww1 : world,
+               walk c vid a cleanup pat {| ci := N.of_nat i; ce := N.of_nat j |} ww =
+               unwound p (cleanup {| ci := N.of_nat i'; ce := N.of_nat j' |}) ww1 /\
+               WalkM c w vid av vv s ww1 st' (evs ++ evs1) /\ (i <= i')%nat /\ (i' <= j' <= j)%nat
+         | None => True
+         end.
+Proof. exact walk_mv_spec. Qed.
+
+(** drain with any such pattern as a step of any history: outcome, values handed out, destructor runs in order, every vector afterwards (also after a refused move) *)
+Theorem C02_moving_drain_in_histories :
+  forall (c : cfg) (w : world) (st : astate) (a : api) (vid : nat) (sb eb : bound)
+           (pat : list (bool * sink)) (f : fin) (r : sres),
+         cfg_wf c ->
+         WRep c w st ->
+         ufuse (wuw w) = None ->
+         sp_drain_mv c st (unext (wuw w)) vid sb eb pat f = Some r ->
+         adm_pat c w vid pat -> res_matches c w (exec c (ODrain a vid sb eb pat f) w) r.
+Proof. exact exec_drain_mv. Qed.
+
 (* ---- end histories ---- *)
 Print Assumptions C02_into_range.
 Print Assumptions C02_drain_new.
@@ -137,3 +177,5 @@ Print Assumptions C02_into_range_panics.
 Print Assumptions C02_walk.
 Print Assumptions C02_drain_in_histories.
 Print Assumptions C02_splice_in_histories.
+Print Assumptions C02_moving_walk.
+Print Assumptions C02_moving_drain_in_histories.
